@@ -34,10 +34,10 @@ def native_constructor_replay(cls, base, names):
 
 
 def unit_constructor(specs):
-    """specs: [(class, base kwargs, (hyper-parameter names...))]; field name = argument name"""
+    """specs: [(class, base kwargs, (hyper-parameter names...)[, qualified class label])]; field name = argument name"""
     def unit(S):
-        for cls, base, names in specs:
-            fn = f"lerax.algorithm:{cls.__name__}.__init__"
+        for cls, base, names, *label in specs:
+            fn = (label[0] if label else f"lerax.algorithm:{cls.__name__}") + ".__init__"
             S.under_contract(fn)
             ctx = Ctx()
             syms = [kit.real_scalar(n) for n in names]
